@@ -36,6 +36,11 @@ def kind_of(t, handle_kind, func):
                 kinds.add('track')
             elif 'crate' in ty:
                 kinds.add('crate')
+            elif func.name in ('add_track', 'remove_track') and func.cls and func.cls.endswith('crate_impl') and \
+                    re.search(r'\b(int|long|int64_t)\b', ty):
+                # the integer parameter of crate::add_track / remove_track is a track id by the contract of the
+                # public API (include/djinterop/crate.hpp), whatever the implementation calls it
+                kinds.add('track')
             elif x[1] in ('track_id',):
                 kinds.add('track')
             elif x[1] in ('list_id', 'crate_id'):
@@ -246,7 +251,7 @@ def track_row_filter_agreement(prog, eff, chk, K8):
             if si is None or si.kind != 'select' or (si.table or '').lower() != 'track':
                 continue
             cols = [c.lower().replace(' ', '') for c in (si.columns or [])]
-            if not cols or not all(c in ('id', 'count(*)') for c in cols):
+            if not cols or not all(c == 'id' or _re.match(r'count\(.*\)$', c) for c in cols):
                 continue        # reads columns of a row it was given, does not decide membership
             w = si.where.text().lower() if si.where is not None else ''
             notnull = set(m_[0] for m_ in _re.findall(r'(\w+)\s+(is\s+not\s+null|notnull|not\s+null)', w))
